@@ -639,6 +639,7 @@ type histGen struct {
 	sh     *shadow // running shadow to know flags / labels
 	calls  []hcall
 	nlabel int
+	used   map[string]bool
 	// classes of distances deliberately produced
 	dist map[string]bool
 }
@@ -654,7 +655,29 @@ func (h *histGen) add(c hcall) {
 func (h *histGen) newLabel() string {
 	h.nlabel++
 	names := []string{"loop", "done", "L", "skip_", "lbl", "x"}
-	return fmt.Sprintf("%s%d", names[h.g.Intn(len(names))], h.nlabel)
+	n := fmt.Sprintf("%s%d", names[h.g.Intn(len(names))], h.nlabel)
+	// names are the caller's: prefixes of each other, differing only in case, numeric, very long,
+	// mnemonic-like, with dots and at-signs
+	switch h.g.Intn(12) {
+	case 0:
+		n = fmt.Sprintf("%d", h.nlabel)
+	case 1:
+		n = fmt.Sprintf("LOOP%d", h.nlabel) // next to loop<k>
+	case 2:
+		n = fmt.Sprintf("x%d0", h.nlabel) // x1 is a prefix of x10
+	case 3:
+		n = fmt.Sprintf("lda.%d@%s", h.nlabel, strings.Repeat("long_", h.g.Intn(60)))
+	case 4:
+		n = fmt.Sprintf(".%d", h.nlabel)
+	}
+	if h.used == nil {
+		h.used = map[string]bool{}
+	}
+	for h.used[n] {
+		n += "_"
+	}
+	h.used[n] = true
+	return n
 }
 
 // one random non-label instruction that is legal under the current flags; maxSize limits its length.
